@@ -245,7 +245,7 @@ def make_history(n, first):
             for step_no, (o, c, a, v) in enumerate(steps):
                 op = pick(o, OPS)
                 ci = pick(c, [0, 1])
-                name = pick(a, NAMES)
+                name = pick(a, NAMES if step_no == 0 else NAMES[::2])      # later steps: one fresh name, one that shadows a built-in
                 if op in ("builtin-prop", "object-proto", "math-prop", "all-builtins"):
                     pre(a == 0)
                 err = apply_op(op, ctxs[ci], models[ci], name, v, clock)
